@@ -447,10 +447,7 @@ func TestC13(t *testing.T) {
 		r.Explore(mc.Config{Name: fmt.Sprintf("point-conditions-b%d", nb), Serial: true, SplitDepth: 2,
 			Rule: fmt.Sprintf("rule configurations: each of 72 single point conditions (number > < = !=, on/off, text = != contains; filters by node/type/key) and all ordered pairs over a reduced set, with one set-value action and one inactive action x all sequences of %d single-point batches over a 64-point alphabet (2 nodes x 2 types x 2 keys x values {4,5,6,0,1} / texts {ab,xaby,a}); after every batch everything the rule published is compared with a reference interpreter (condition active points, rule active point, action set-value with the rule as origin, action/inactive-action active points, nothing when nothing changes)", nb)},
 			c13PointsBody(t, nb, false))
-		nb2 := 1
-		if thorough() {
-			nb2 = 2
-		}
+		nb2 := 1 // (two batches of up to two points would be 17 M sequences per rule configuration)
 		r.Explore(mc.Config{Name: fmt.Sprintf("point-conditions-two-point-batches-b%d", nb2), Serial: true, SplitDepth: 2,
 			Rule: fmt.Sprintf("same rule configurations x %d batch(es) of 1 or 2 points from one node (all ordered pairs of the 64-point alphabet): the latest matching point of a batch decides, whatever the earlier ones did", nb2)}, c13PointsBody(t, nb2, true))
 		r.Explore(mc.Config{Name: fmt.Sprintf("schedule-conditions-s%d", steps), Serial: true, SplitDepth: 3,
